@@ -1003,82 +1003,95 @@ impl<'a> CompilerState<'a> {
                 }
             })
             .map_infix(|lhs, op, rhs| {
+                // An operand that failed (or a result that does not fit) is an error, not a panic
+                let lhs = lhs?;
+                let rhs = rhs?;
+                let start = op.as_span().start();
+                let overflow = || self.syntax_error("Constant expression overflow", start);
                 let res = match op.as_rule() {
-                    Rule::mul => lhs.unwrap() * rhs.unwrap(),
+                    Rule::mul => lhs.checked_mul(rhs).ok_or_else(overflow)?,
                     Rule::div => {
-                        let d = rhs.unwrap();
-                        if d == 0 {
-                            let start = op.as_span().start();
+                        if rhs == 0 {
                             return Err(self.syntax_error("Division by zero", start));
                         }
-                        lhs.unwrap() / d
+                        lhs.checked_div(rhs).ok_or_else(overflow)?
                     }
-                    Rule::add => lhs.unwrap() + rhs.unwrap(),
-                    Rule::sub => lhs.unwrap() - rhs.unwrap(),
-                    Rule::and => lhs.unwrap() & rhs.unwrap(),
-                    Rule::or => lhs.unwrap() | rhs.unwrap(),
-                    Rule::xor => lhs.unwrap() ^ rhs.unwrap(),
-                    Rule::brs => lhs.unwrap() >> rhs.unwrap(),
-                    Rule::bls => lhs.unwrap() << rhs.unwrap(),
+                    Rule::add => lhs.checked_add(rhs).ok_or_else(overflow)?,
+                    Rule::sub => lhs.checked_sub(rhs).ok_or_else(overflow)?,
+                    Rule::and => lhs & rhs,
+                    Rule::or => lhs | rhs,
+                    Rule::xor => lhs ^ rhs,
+                    Rule::brs => {
+                        if !(0..32).contains(&rhs) {
+                            return Err(overflow());
+                        }
+                        lhs >> rhs
+                    }
+                    Rule::bls => {
+                        if !(0..32).contains(&rhs) {
+                            return Err(overflow());
+                        }
+                        i32::try_from((lhs as i64) << rhs).map_err(|_| overflow())?
+                    }
                     Rule::land => {
-                        if lhs.unwrap() != 0 && rhs.unwrap() != 0 {
+                        if lhs != 0 && rhs != 0 {
                             1
                         } else {
                             0
                         }
                     }
                     Rule::lor => {
-                        if lhs.unwrap() != 0 || rhs.unwrap() != 0 {
+                        if lhs != 0 || rhs != 0 {
                             1
                         } else {
                             0
                         }
                     }
                     Rule::gt => {
-                        if lhs.unwrap() > rhs.unwrap() {
+                        if lhs > rhs {
                             1
                         } else {
                             0
                         }
                     }
                     Rule::gte => {
-                        if lhs.unwrap() >= rhs.unwrap() {
+                        if lhs >= rhs {
                             1
                         } else {
                             0
                         }
                     }
                     Rule::lt => {
-                        if lhs.unwrap() < rhs.unwrap() {
+                        if lhs < rhs {
                             1
                         } else {
                             0
                         }
                     }
                     Rule::lte => {
-                        if lhs.unwrap() <= rhs.unwrap() {
+                        if lhs <= rhs {
                             1
                         } else {
                             0
                         }
                     }
                     Rule::eq => {
-                        if lhs.unwrap() == rhs.unwrap() {
+                        if lhs == rhs {
                             1
                         } else {
                             0
                         }
                     }
                     Rule::neq => {
-                        if lhs.unwrap() != rhs.unwrap() {
+                        if lhs != rhs {
                             1
                         } else {
                             0
                         }
                     }
                     Rule::ternary_cond1 => {
-                        let l = lhs.unwrap();
-                        let r = rhs.unwrap();
+                        let l = lhs;
+                        let r = rhs;
                         debug!("t1: left: {} right: {}", l, r);
                         if l != 0 {
                             r
@@ -1087,8 +1100,8 @@ impl<'a> CompilerState<'a> {
                         }
                     }
                     Rule::ternary_cond2 => {
-                        let l = lhs.unwrap();
-                        let r = rhs.unwrap();
+                        let l = lhs;
+                        let r = rhs;
                         debug!("t2: left: {} right: {}", l, r);
                         if l == 0x7eaddead {
                             r
@@ -1101,7 +1114,9 @@ impl<'a> CompilerState<'a> {
                 Ok(res)
             })
             .map_prefix(|op, rhs| match op.as_rule() {
-                Rule::neg => Ok(-rhs?),
+                Rule::neg => rhs?.checked_neg().ok_or_else(|| {
+                    self.syntax_error("Constant expression overflow", op.as_span().start())
+                }),
                 Rule::not => Ok(!rhs?),
                 Rule::bnot => Ok(!rhs?),
                 _ => unreachable!(),
